@@ -11,6 +11,8 @@ import JsonV.Lemmas.MeaningStr
 import JsonV.Lemmas.GlueMeaningTree
 import JsonV.Lemmas.GlueMeaningFuel
 import JsonV.Lemmas.GlueMeaningUnquote
+import JsonV.Lemmas.GlueMeaningTreeC
+import JsonV.Lemmas.GlueMeaningNumI
 import JsonV.Props.C01
 
 namespace JsonV.Props.C03
@@ -304,12 +306,36 @@ theorem meaning_implies_grammar_lib (b : Bytes) (t : MTree) (h : parseTree b = s
 
 example : JText ⟨true, true⟩ 2 id exampleText := meaning_implies_grammar exampleText exampleTree 2 (by rfl) (by decide)
 
-/-- Converse directions, NOT proved (validated by the harness op `corr-spec-vs-validator`). -/
-def grammar_implies_meaning_full : Prop := ∀ (b : Bytes) (md : Nat), JText ⟨true, true⟩ md id b → ∃ t, parseTree b = some t ∧ t.depth ≤ md
+/-- The converse: **every text of the C01 grammar (strict UTF-8, duplicate names allowed) is parsed by the meaning spec**,
+with a tree no deeper than the grammar's nesting bound.  With `meaning_implies_grammar`: the two formalisations of
+"valid JSON text" accept the same byte strings. -/
+theorem grammar_implies_meaning (b : Bytes) (md : Nat) (h : JText ⟨true, true⟩ md id b) :
+    ∃ t, parseTree b = some t ∧ t.depth ≤ md :=
+  JsonV.Lemmas.GlueMeaningTreeC.text_complete md b h
 
-def lexNum_iff_full : Prop := ∀ (b : Bytes) (n : Nat), (∃ l r, lexNum b = some (l, r) ∧ l.length = n) ↔ consumeNumber b = (n, .ok)
+theorem meaning_iff_grammar (b : Bytes) (md : Nat) :
+    (∃ t, parseTree b = some t ∧ t.depth ≤ md) ↔ JText ⟨true, true⟩ md id b :=
+  ⟨fun ⟨t, h, hd⟩ => meaning_implies_grammar b t md h hd, grammar_implies_meaning b md⟩
 
-def spec_iff_validator_full : Prop := ∀ (b : Bytes), (∃ t, parseTree b = some t ∧ t.depth ≤ maxDepth) ↔ JsonV.Model.Validate.isValid ⟨false, true⟩ b = true
+/-- **The meaning spec and C01's validator model accept the same texts** (strict UTF-8, duplicate names allowed,
+the library's nesting limit): `parseTree` succeeds with a tree within the limit iff `Value.IsValid`'s model says yes.
+Uses C01's `valid_iff` (validator = grammar). -/
+theorem spec_iff_validator (b : Bytes) :
+    (∃ t, parseTree b = some t ∧ t.depth ≤ maxDepth) ↔ JsonV.Model.Validate.isValid ⟨false, true⟩ b = true := by
+  rw [JsonV.Props.C01.valid_iff, meaning_iff_grammar b maxDepth]
+  exact ⟨JsonV.Lemmas.GlueMeaningTreeC.jtext_key_irrel true _ _ _, JsonV.Lemmas.GlueMeaningTreeC.jtext_key_irrel true _ _ _⟩
+
+example : JsonV.Model.Validate.isValid ⟨false, true⟩ exampleText = true :=
+  (spec_iff_validator exampleText).1 ⟨exampleTree, by rfl, by decide⟩
+
+/-- Numbers: `lexNum` accepts `n` bytes iff the model of jsonwire.ConsumeNumber answers `(n, nil)`
+(C01 `number_iff` glued to `lexNum_sound` / `lexNum_complete` / maximal munch). -/
+theorem lexNum_iff (b : Bytes) (n : Nat) :
+    (∃ l r, lexNum b = some (l, r) ∧ l.length = n) ↔ consumeNumber b = (n, .ok) :=
+  JsonV.Lemmas.GlueMeaningNumI.lexNum_iff b n
+
+example : consumeNumber [0x2D, 0x31, 0x2E, 0x35, 0x65, 0x33, 0x2C] = (6, .ok) :=
+  (lexNum_iff _ 6).1 ⟨_, _, by rfl, rfl⟩
 
 end Glue
 
